@@ -594,6 +594,25 @@ theorem connect_sound_real_pool (cache : List CacheEntry) (wtxidOf : Tx → Byte
   connect_sound_pool_hook _ db b db' so mtpOf (real_pool_hook_is_honest cache wtxidOf verdict b hcache hverd)
     hwf hinj hbip30 hseq hret hheights hb hmtp hsize hbytes h
 
+/-- non-vacuity of `connect_sound_real_pool`: the pool holds the transaction of `W.blockOk` (non-local, under the witness
+    hash the block carries, verdict true); both pool hypotheses hold, the hook vouches for that transaction and the block
+    is connected through `connectT` with `cacheChecker` as the hook -/
+example :
+    let cache : List CacheEntry := [⟨W.idOf 1, [0x77], .toSend, false⟩]
+    let verdict : Bytes → Bool := fun w => w == [0x77]
+    let wtxidOf : Tx → Bytes := fun _ => [0x77]
+    (∀ e ∈ cache, e.state = .toSend → e.localTx = false → verdict e.wtxid = true)
+    ∧ (∀ tx ∈ W.blockOk.txs.tail, verdict (wtxidOf tx) = true → ∀ i ∈ tx.ins, i.scriptOk = true)
+    ∧ (∃ tx ∈ W.blockOk.txs.tail, (cacheChecker HookCfg.current cache wtxidOf).says tx = true)
+    ∧ isOk (connectT Cfg.current (cacheChecker HookCfg.current cache wtxidOf) W.db0 W.blockOk) = true := by
+  refine ⟨by decide, by decide, by decide, by decide⟩
+
+/-- The configuration theorems above are about `connectT` — a commitTxs that ASKS the hook. That it does is itself a
+    regenerated fact (go/cmd/gen_c04: some function of chain_accept.go tests `TrustedTxChecker(tx)`); nothing more is
+    claimed here than that this fact is `true` for the source the check ran against (the theorem stops checking when
+    the call disappears; the oracle op `blockv` and the harness episodes with a hook would then exercise dead wiring). -/
+theorem hook_is_consulted : Gen.C04Facts.hookConsulted = true := by decide
+
 /-- Why the witness hash must be compared: the pool once verified T (wtxid w) and then replaced it; a block carries T'
     — the same txid under another witness w' whose script verdict is FALSE. A hook that answers on the txid for entries
     "whose scripts were verified once" vouches for T'; the one the source has now does not — neither for a replaced
